@@ -1,5 +1,6 @@
 import urllib
 
+from . import json as _json
 from . import packet
 
 
@@ -20,11 +21,14 @@ class Payload:
                 encoded_payload += '\x1e'
             encoded_payload += pkt.encode(b64=True)
         if jsonp_index is not None:
+            # the payload goes inside a JavaScript string literal: a JSON string
+            # is one, with quotes, backslashes, line terminators and all
+            # non-ASCII characters escaped
             encoded_payload = '___eio[' + \
                               str(jsonp_index) + \
-                              ']("' + \
-                              encoded_payload.replace('"', '\\"') + \
-                              '");'
+                              '](' + \
+                              _json.dumps(encoded_payload) + \
+                              ');'
         return encoded_payload
 
     def decode(self, encoded_payload):
